@@ -36,6 +36,8 @@ BLOCKS = {
     'procs': ('processes', PROCS), 'images': ('images', IMAGES), 'strings': ('strings', V.sample_strings()),
     'logs': ('logs', V.sample_logs()), 'logs2': ('logs', {'Events': [V.mandatory(4, 0x503, p=0, pid=70)]}),
     'logs0': ('logs', {'Events': []}), 'logs3': ('logs', LOGS3), 'kext3': ('kexts', KEXT3),
+    # records of a thread the thread map already lists under the same pid but another name, then yet another name
+    'logs4': ('logs', {'Events': [V.mandatory(4, 0x77, p=0, pid=7), V.mandatory(1, 0x77, p=3, pid=7)]}),
 }
 
 
@@ -64,7 +66,7 @@ def splits(m, kmax=3):
 SEQS_QUICK = [
     [], ['strings', 'logs'], ['codes1', 'kext1', 'codes2', 'kext2'], ['dyld1', 'dyld2', 'procs', 'images'],
     ['logs', 'strings', 'logs2'], ['images', 'strings', 'logs0', 'codes1'],
-    ['strings', 'logs3', 'logs'], ['kext2', 'kext3', 'kext1', 'kext3'],
+    ['strings', 'logs3', 'logs'], ['kext2', 'kext3', 'kext1', 'kext3'], ['strings', 'logs4'],
 ]
 
 
